@@ -201,3 +201,70 @@ def c17(prop, tier):
         ("seq", ["seq", "-seed", str(s), "-hists", "24" if q else "300", "-ops", "40" if q else "60"]),
     ]
     return index_family(prop, tier, plans)
+
+
+# --------------------------------------------------------------------------- case-table checks (spec -> code)
+
+def case_table(module, cfg, env_out="VERIF_CASES_OUT", extra_env=None, workers=1, timeout=600):
+    """Run TLC on a decision-style specification: checks its invariants over the
+    whole case space and writes the case table for the harness."""
+    out = os.path.join(scratch(), module.replace(".tla", "") + "-cases.json")
+    env = {env_out: out}
+    if extra_env:
+        env.update(extra_env)
+    r = run_tlc(module, cfg, env=env, workers=workers, timeout=timeout)
+    if not r.ok:
+        raise Machinery(f"model check of {module} did not pass: {r.invariant or r.error}\n{r.output[-3000:]}")
+    if not os.path.exists(out):
+        raise Machinery(f"{module} wrote no case table")
+    n = len(json.load(open(out)))
+    log(f"[model] {module}: {r.distinct} distinct states, {n} cases, {r.wall_s:.1f}s")
+    return r, out, n
+
+
+def case_check(prop, tier, module, cfg, vh_args, desc, assumptions, t0=None, extra_models=None):
+    t0 = t0 or time.time()
+    cov = new_cov()
+    v = Verdict(prop)
+    r, table, n = case_table(module, cfg)
+    add_model(cov, module.replace(".tla", ""), r, desc)
+    for name, rr, d in (extra_models or []):
+        add_model(cov, name, rr, d)
+    args = [a.replace("{cases}", table).replace("{tier}", tier).replace("{seed}", str(seed())) for a in vh_args]
+    res = run_vh(args, timeout=7200)
+    collect_driver(v, res, {"driver_args": args, "kind": "driver"})
+    cov["evaluations"] = res["cases"]
+    cov["distinct_nontrivial"] = res["nontrivial"]
+    cov["rule"] = res["rule"]
+    cov["samples"] = res.get("samples", [])[:4] or [{"note": "no samples"}]
+    cov["cases_in_table"] = n
+    cov["extra"] = res.get("extra")
+    cov["drivers"].append({"driver": args[0], "executions": res["cases"], "drive_s": round(res["_wall_s"], 1)})
+    cov["checker_cmd"] = f"tlc {module} (all cases, Mechanism subset of Policy) + vh {args[0]} (every case on the real servers)"
+    if res["cases"] == 0 or res["nontrivial"] < 2:
+        raise Machinery(f"{prop}: vacuous run ({res['cases']} executions, {res['nontrivial']} non-trivial)")
+    log(f"[conf] {args[0]}: {res['cases']} executions ({res['nontrivial']} non-trivial), {len(res.get('violations', []))} violations, {res['_wall_s']:.1f}s")
+    rc = v.finish()
+    write_evidence(prop, tier, "model_checking", cov, time.time() - t0, len(v.violations), assumptions)
+    return rc
+
+
+CASE_ASSUME = [
+    "TLC enumerates the complete abstract case space of the specification; the harness concretises each abstract class (sizes at the real 4 KiB / 1 MiB edges, random/zero/text contents)",
+    "byte-level truth comes from SHA-256 in the harness, not from the model",
+    "front ends are constructed from the exported constructors exactly as main.go wires them (gRPC over bufconn, HTTP over httptest)",
+]
+
+
+@check("C01")
+def c01(prop, tier):
+    return case_check(prop, tier, "Ingress.tla", "Ingress.cfg",
+                      ["ingress", "-cases", "{cases}", "-tier", "{tier}", "-seed", "{seed}"],
+                      "13 write paths x 12 defect kinds x present/absent x limit relation, pruned by Applicable", CASE_ASSUME)
+
+
+@check("C18")
+def c18(prop, tier):
+    return case_check(prop, tier, "Ingress.tla", "Ingress.cfg",
+                      ["ingress", "-limits", "-cases", "{cases}", "-tier", "{tier}", "-seed", "{seed}"],
+                      "13 write paths x max_blob_size in {size-1, size, size+1}", CASE_ASSUME)
